@@ -15,7 +15,7 @@ PROPS = ['PGA.Props.C01']
 GEN = ['Pmutt', 'Uq']
 OBLIGATIONS = ['PGA.Estimate.' + t for t in [
     'C01_terms', 'C01_value_iff', 'C01_sum_H', 'C01_sum_Cp', 'C01_sum_S', 'C01_sum_G', 'C01_error_iff', 'C01_first_error',
-    'C01_incomplete_iff', 'C01_missing_iff', 'C01_missing_no_value', 'C01_no_keyError', 'C01_lookup_unknown',
+    'C01_incomplete_iff', 'C01_missing_iff', 'C01_invalid_set_iff', 'C01_missing_no_value', 'C01_no_keyError', 'C01_lookup_unknown',
     'C01_perm_outcome', 'C01_perm_Cp', 'C01_perm_H', 'C01_perm_S', 'C01_perm_G', 'C01_append', 'C01_scale',
     'C01_merge_counts', 'C01_zero_count', 'C01_range_inter']]
 RULE = ('case = (library, ordered mapping descriptor->count, T).  Libraries: the nine shipped ones and synthetic ones built through '
